@@ -11,6 +11,7 @@ package main
 import (
 	"cmp"
 	"encoding/json"
+	"math"
 	"math/rand"
 
 	"github.com/creachadair/mds/stree"
@@ -41,13 +42,33 @@ func c03exec(c *Ctx, st *c03state, op Op, rng *rand.Rand) Ev {
 		ci = 1
 	}
 	ev := Ev{"op": name, "c": ci, "c2": c2, "key": geti(op, "key"), "pre": []int{}, "rem": []int{}, "beta": 0,
-		"shape": []any{}, "cs": [][7]int{}, "ino": []int{}, "stop": 0, "inopre": []int{}}
+		"shape": []any{}, "cs": [][7]int{}, "ino": []int{}, "stop": 0, "inopre": []int{}, "mag": 0}
 	guard(ev, func() {
 		switch name {
 		case "new":
 			pre, rem, beta := getis(op, "pre"), getis(op, "rem"), geti(op, "beta")
 			ev["pre"], ev["rem"], ev["beta"] = ints(pre), ints(rem), beta
-			st.t = stree.New(beta, cmp.Compare[int])
+			cf := cmp.Compare[int]
+			switch geti(op, "mag") { // any magnitude is a legal comparator result
+			case 1:
+				cf = func(a, b int) int { return 7 * (a - b) }
+			case 2:
+				cf = func(a, b int) int { return (a - b) << 32 }
+			case 3:
+				cf = func(a, b int) int { return (a - b) << 31 }
+			case 4:
+				cf = func(a, b int) int {
+					switch {
+					case a < b:
+						return math.MinInt
+					case a > b:
+						return math.MaxInt
+					}
+					return 0
+				}
+			}
+			ev["mag"] = geti(op, "mag")
+			st.t = stree.New(beta, cf)
 			for _, k := range pre {
 				st.t.Add(k)
 			}
@@ -124,7 +145,7 @@ func runC03(c *Ctx) {
 		}
 		h := c.NewHist("tlc-shape-move")
 		st := &c03state{}
-		h.Emit(c03exec(c, st, Op{"op": "new", "pre": p.Pre, "beta": 1000}, nil))
+		h.Emit(c03exec(c, st, Op{"op": "new", "pre": p.Pre, "beta": 1000, "mag": c.nextH % 5}, nil))
 		h.Emit(c03exec(c, st, Op{"op": "cursor", "c": 1, "key": p.Start}, nil))
 		h.Emit(c03exec(c, st, Op{"op": "clone", "c": 1, "c2": 2}, nil))
 		for _, m := range p.Moves {
@@ -134,6 +155,36 @@ func runC03(c *Ctx) {
 		h.Emit(c03exec(c, st, Op{"op": "up", "c": 2}, nil))
 	}
 	moves := []string{"next", "prev", "left", "right", "up", "min", "max"}
+	// deep trees: a long spine (no rebalancing) with a bushy subtree at its
+	// bottom, cursors working below depth 64 with clones in between
+	for i := 0; i < c.Pick(4, 40); i++ {
+		rng := c.Rng("c03-deep", i)
+		h := c.NewHist("deep-spine")
+		st := &c03state{}
+		spine := 70 + rng.Intn(60)
+		var pre []int
+		for j := 0; j < spine; j++ {
+			pre = append(pre, 10*j) // ascending: each key the right child of the previous
+		}
+		base := 10 * spine
+		bush := []int{base + 400, base + 200, base + 600, base + 100, base + 300, base + 500, base + 700, base + 50, base + 150, base + 650, base + 750}
+		pre = append(pre, bush...)
+		h.Emit(c03exec(c, st, Op{"op": "new", "pre": pre, "beta": 1000, "mag": rng.Intn(5)}, rng))
+		for j := 0; j < 60; j++ {
+			ci := 1 + rng.Intn(2)
+			var op Op
+			switch r := rng.Intn(100); {
+			case r < 15:
+				op = Op{"op": "cursor", "c": ci, "key": bush[rng.Intn(len(bush))]}
+			case r < 35:
+				op = Op{"op": "clone", "c": ci, "c2": 3 - ci}
+			default:
+				op = Op{"op": moves[rng.Intn(len(moves))], "c": ci}
+			}
+			op["stop"] = 1
+			h.Emit(c03exec(c, st, op, rng))
+		}
+	}
 	nh := c.Pick(300, 8000)
 	for i := 0; i < nh; i++ {
 		c.genGuard(func() {
@@ -169,7 +220,7 @@ func runC03(c *Ctx) {
 					rem = append(rem, pre[rng.Intn(len(pre))])
 				}
 			}
-			h.Emit(c03exec(c, st, Op{"op": "new", "pre": pre, "rem": rem, "beta": beta}, rng))
+			h.Emit(c03exec(c, st, Op{"op": "new", "pre": pre, "rem": rem, "beta": beta, "mag": []int{0, 0, 1, 2, 3, 4}[rng.Intn(6)]}, rng))
 			nops := 20 + rng.Intn(40)
 			for j := 0; j < nops; j++ {
 				ci := 1 + rng.Intn(2)
